@@ -37,6 +37,16 @@ def enc_client_type(r):
     return "ClientType %s %s" % (hx(r["in"]), b(r["out"]))
 
 
+def spec_client_type(r):
+    """C15: every identifier generated for a registrable client type passes the identifier validation for every
+    sequence, including the 20-digit ones: an accepted type T must leave room for "-" and 20 digits within 64
+    characters (len(T) <= 43) and, with them, stay within the 4..64 bound"""
+    t = unhex(r["in"])
+    if r["out"] and len(t) + 1 + 20 > 64:
+        return "client type %r (%d characters) is accepted as registrable, but its identifier for a 20-digit sequence has %d characters (> 64) and fails the identifier validation" % (
+            t, len(t), len(t) + 21)
+
+
 def enc_client_fmt(r):
     return "ClientFmt %s %s %s" % (hx(r["in"][0]), N(r["in"][1]), hx(r["out"]))
 
@@ -553,7 +563,7 @@ def nontrivial_accept(r):
 KINDS = {
     "blank": dict(props=["C15"], enc=enc_blank, spec=None, exact=False),
     "valid_id": dict(props=["C15", "C16"], enc=enc_valid_id, spec=None, exact=False),
-    "client_type": dict(props=["C15"], enc=enc_client_type, spec=None, exact=False),
+    "client_type": dict(props=["C15"], enc=enc_client_type, spec=spec_client_type, exact=False),
     "client_fmt": dict(props=["C15"], enc=enc_client_fmt, spec=None, exact=False),
     "client_parse": dict(props=["C15"], enc=enc_client_parse, spec=spec_client_parse, exact=False),
     "client_roundtrip": dict(props=["C15"], enc=enc_client_roundtrip, spec=spec_client_roundtrip, exact=False,
